@@ -2,6 +2,6 @@
 From Coq Require Import List Arith.
 Import ListNotations.
 (* (ARGUMENT_COUNT, slice indices passed to the closure in argument order) per impl *)
-Definition dispatch_table : list (nat * list nat) := [(1, [0]); (2, [0; 1]); (3, [0; 2; 1]); (4, [0; 1; 2; 3]); (5, [0; 1; 2; 3; 4]); (6, [0; 1; 2; 3; 4; 5]); (7, [0; 1; 2; 3; 4; 5; 6]); (8, [0; 1; 2; 3; 4; 5; 6; 7]); (9, [0; 1; 2; 3; 4; 5; 6; 7; 8]); (10, [0; 1; 2; 3; 4; 5; 6; 7; 8; 9])].
+Definition dispatch_table : list (nat * list nat) := [(1, [0]); (2, [0; 1]); (3, [0; 1; 2]); (4, [0; 1; 2; 3]); (5, [0; 1; 2; 3; 4]); (6, [0; 1; 2; 3; 4; 5]); (7, [0; 1; 2; 3; 4; 5; 6]); (8, [0; 1; 2; 3; 4; 5; 6; 7]); (9, [0; 1; 2; 3; 4; 5; 6; 7; 8]); (10, [0; 1; 2; 3; 4; 5; 6; 7; 8; 9])].
 (* whether the macro body / count_args! still have the recognised shape *)
 Definition dispatch_shape_recognised : bool := true.
